@@ -1,6 +1,6 @@
+import datetime
 import re
 
-import dateutil.parser
 from tlz.dicttoolz import merge
 from tlz.functoolz import curry
 from tlz.functoolz import identity as passthrough
@@ -76,6 +76,11 @@ processing_facilities = {
 }
 
 
+def parse_date(value):
+    # strictly `yymmdd`: a lenient parser re-reads impossible dates such as "140132" as some other date
+    return datetime.datetime.strptime(value, "%y%m%d")
+
+
 def lookup(mapping, code):
     value = mapping.get(code)
     if value is None:
@@ -91,7 +96,7 @@ translations = {
     "processing_option": curry(lookup, processing_options),
     "map_projection": curry(lookup, map_projections),
     "orbit_direction": curry(lookup, orbit_directions),
-    "date": curry(dateutil.parser.parse, yearfirst=True, dayfirst=False),
+    "date": parse_date,
     "mission_name": passthrough,
     "orbit_accumulation": passthrough,
     "scene_frame": passthrough,
